@@ -192,6 +192,9 @@ func checkC09(c c09Case) error {
 			if derr != nil && hasIntBeyondInt64Deep(e1) {
 				return finding("canonical-form-rejected/bignum-beyond-int64", "step %d: a bignum (tag 2/3) beyond int64 in a header was re-emitted as a plain integer, which the decoder refuses: %v\n%x", i, derr, e1)
 			}
+			if derr != nil && taggedMapKey(cur) {
+				return finding("canonical-form-rejected/tagged-map-key", "step %d: a nested map holds a tagged key (tag 0/1 items become time.Time in Go and are re-emitted untagged): after the caller discards the raw bytes the re-encoding has duplicate keys and is refused by the decoder: %v\n in=%x\nout=%x", i, derr, cur, e1)
+			}
 			if derr != nil || eerr != nil {
 				return finding("canonical-form-rejected", "step %d: the form obtained after discarding raw bytes cannot be decoded / re-encoded (dec=%v enc=%v)\n%x", i, derr, eerr, e1)
 			}
@@ -255,6 +258,36 @@ func hasIntBeyondInt64Deep(b []byte) bool {
 		}
 	}
 	return false
+}
+
+// taggedMapKey reports whether the item - looking into byte strings that wrap
+// CBOR - has a map whose key is a tagged item.
+func taggedMapKey(b []byte) bool {
+	n, err := rc.Parse(b)
+	if err != nil && err != rc.ErrTrailing {
+		return false
+	}
+	found := false
+	var walk func(n *rc.Node, depth int)
+	walk = func(n *rc.Node, depth int) {
+		if n == nil || depth > 8 {
+			return
+		}
+		n.Walk(func(x *rc.Node) {
+			for _, k := range x.Keys {
+				if k.Major == 6 {
+					found = true
+				}
+			}
+			if x.Major == 2 && len(x.Content) > 0 {
+				if in, err := rc.Parse(x.Content); err == nil {
+					walk(in, depth+1)
+				}
+			}
+		})
+	}
+	walk(n, 0)
+	return found
 }
 
 func mustParse(b []byte) *rc.Node {
